@@ -566,7 +566,7 @@ def wiring(ctx: Ctx):
 def axis_order(ctx: Ctx):
     """`Dimensions.dimension_order` says which payload axis belongs to which dimension.  It is a finite decision
     table over (number of dimensions, which dimension types are present): evaluated here on a model of every
-    shape of cube with up to three raw dimensions.  A numeric-array dimension is listed FIRST in the dimensions
+    shape of cube with up to four raw dimensions.  A numeric-array dimension is listed FIRST in the dimensions
     but is the LAST axis of the payload, so the order is the rotation (1, .., n-1, 0); every other cube is laid
     out in dimension order.  The two consumers (shape of the reshape, per-axis valid indices) must both index
     through it."""
@@ -583,6 +583,8 @@ def axis_order(ctx: Ctx):
         [CAT, CAT], [MRS, MRC], [CAS, CAC], [NA, CAT], [NA, CAS],
         [CAT, CAT, CAT], [CAT, MRS, MRC], [MRS, MRC, CAT], [CAS, CAC, CAT],
         [NA, CAT, CAT], [NA, MRS, MRC], [NA, CAS, CAC], [NA, CAT, CAS],
+        # 3-D responses with a multiple-response dimension have FOUR stored dimensions
+        [CAT, MRS, MRC, CAT], [MRS, MRC, MRS, MRC][:4], [CAT, CAT, MRS, MRC], [NA, CAT, MRS, MRC], [NA, MRS, MRC, CAT],
     ]
     for types in shapes:
         n = len(types)
